@@ -155,7 +155,9 @@ func parseExprWithPrecedence(lex *lexer.PeekingLexer, minPrec int) (Expression, 
 			}
 		case tok.Type == TokenTypeOpenBracket:
 			if minPrec >= 5 {
-				break
+				// The subscript applies to the enclosing expression, e.g. `(x as T)[0]`.
+				// (A bare `break` here would only leave the switch and loop forever.)
+				return lhs, nil
 			}
 			lhs, err = parseSubscript(lex, lhs)
 			if err != nil {
